@@ -90,6 +90,11 @@ def tensor_repr(t, reg: Registry, with_bytes=False):
         rec = (tok, type(t).__name__, t.name, int(t.dtype), tuple(dim_repr(d) for d in t.shape.dims))
     except Exception as e:  # noqa: BLE001
         rec = (tok, type(t).__name__, "<err>", type(e).__name__)
+    # serialised state that lives on the tensor object itself (shared between a clone and its original)
+    try:
+        rec = rec + ((t.doc_string or None, tuple(sorted((t.metadata_props or {}).items()))),)
+    except Exception:  # noqa: BLE001
+        rec = rec + (("<no doc/metadata>",),)
     if with_bytes:
         try:
             rec = rec + (t.tobytes(),)
